@@ -163,6 +163,22 @@ func (NullMetrics) RecordEvaluation(metrics.Decision, api.LevelVersion, metrics.
 func (NullMetrics) RecordExemption(api.Attributes)   {}
 func (NullMetrics) RecordError(bool, api.Attributes) {}
 
+// LabelsRV: a resourceVersion that changes exactly when the labels change.
+func LabelsRV(ls map[string]string) string {
+	keys := make([]string, 0, len(ls))
+	for k := range ls {
+		keys = append(keys, k)
+	}
+	sort.Strings(keys)
+	h := uint32(2166136261)
+	for _, k := range keys {
+		for _, c := range []byte(k + "=" + ls[k] + ";") {
+			h = (h ^ uint32(c)) * 16777619
+		}
+	}
+	return fmt.Sprint(1000 + h%100000)
+}
+
 // InjectedError: the flavours of dependency failure; none of them is treated specially by the admission code.
 func InjectedError(kind int, what string) error {
 	switch kind % 8 {
@@ -194,7 +210,7 @@ func (f fakeNS) GetNamespace(ctx context.Context, name string) (*corev1.Namespac
 	if f.w.NSErr {
 		return nil, InjectedError(f.w.ErrKind, "namespace lookup")
 	}
-	return &corev1.Namespace{ObjectMeta: metav1.ObjectMeta{Name: name, Labels: f.w.NSLabels}}, nil
+	return &corev1.Namespace{ObjectMeta: metav1.ObjectMeta{Name: name, Labels: f.w.NSLabels, ResourceVersion: LabelsRV(f.w.NSLabels), UID: "ns-uid"}}, nil
 }
 
 type fakeLister struct {
@@ -311,7 +327,17 @@ func WireRequest(cfg *CfgSpec, req *ReqSpec) *admissionv1.AdmissionRequest {
 		Name: req.Name, Namespace: req.Namespace, Operation: admissionv1.Operation(req.Op),
 		UserInfo: authenticationv1.UserInfo{Username: req.User, UID: uid, Groups: groups},
 		Object:   obj, OldObject: old,
+		DryRun: wireDryRun(req),
 	}
+}
+
+// wireDryRun: a third of the wire requests are server-side dry runs; they are judged like any other request.
+func wireDryRun(req *ReqSpec) *bool {
+	if (len(req.Name)+len(req.Namespace)+len(req.User)+len(req.Op))%3 == 0 {
+		yes := true
+		return &yes
+	}
+	return nil
 }
 
 // AttrsFor returns the Attributes handed to Validate for req.
@@ -344,7 +370,7 @@ func BuildObject(o *ObjSpec) (runtime.Object, error) {
 		return o.Pod, nil
 	case "namespace":
 		// metadata and status outside the labels must not matter
-		return &corev1.Namespace{ObjectMeta: metav1.ObjectMeta{Name: o.NSName, Labels: o.Labels, Generation: o.Generation,
+		return &corev1.Namespace{ObjectMeta: metav1.ObjectMeta{Name: o.NSName, Labels: o.Labels, Generation: o.Generation, ResourceVersion: "4711", UID: "ns-uid",
 			Annotations: map[string]string{"pod-security.kubernetes.io/enforce": "privileged", "pod-security.kubernetes.io/exempt": "true"},
 			Finalizers:  []string{"kubernetes"}}, Status: corev1.NamespaceStatus{Phase: corev1.NamespaceActive}}, nil
 	case "other":
@@ -717,7 +743,7 @@ func (ctxNS) GetNamespace(ctx context.Context, name string) (*corev1.Namespace, 
 	if w.NSErr {
 		return nil, InjectedError(w.ErrKind, "namespace lookup")
 	}
-	return &corev1.Namespace{ObjectMeta: metav1.ObjectMeta{Name: name, Labels: w.NSLabels}}, nil
+	return &corev1.Namespace{ObjectMeta: metav1.ObjectMeta{Name: name, Labels: w.NSLabels, ResourceVersion: LabelsRV(w.NSLabels), UID: "ns-uid"}}, nil
 }
 
 type ctxLister struct{}
